@@ -6,7 +6,7 @@ import ast
 from framelint.core import rule, Ctx
 from framelint.srcmodel import walk_own, AnalysisError, FuncInfo
 from framelint.canon import (Canon, CanonOptions, canon_function, show, S, to_poly, mk_lt, mk_and, mk_not, mk_eq, k_num,
-                             k_str, contains, skey, atoms_of, Sigma, diff_paths, mk_call)
+                             k_str, contains, skey, atoms_of, Sigma, diff_paths, mk_call, K_TRUE)
 from framelint.cfg import EXIT, ENTRY
 from framelint.kinds import IndexSpec, IndexTyper
 from .common import (eq_constants, GEOM, DIE, PARSE_DIE, YWRITE, sigma_xy, stmt_calls, exit_facts, facts_text, call_name, norm_stmt,
@@ -766,6 +766,30 @@ def r8(ctx: Ctx) -> None:
                 i, j = st[1][2][0][2]
                 if st[2][0][1] == ("s", ("s", ("a", s_, "_cells"), j), i):
                     ok = True
+    if not ok:
+        # the same filling written as one assignment: cells[j][i] = any(region.point_inside(cell centre) for region in the three lists)
+        anys = atoms_of(c, lambda x: x[0] == "set" and len(x) == 3 and x[1][0] == "s" and x[1][1][0] == "s" and x[1][1][1] == ("a", s_, "_cells")
+                        and x[2][0] == "c" and x[2][1] == ("g", "any") and len(x[2][2]) == 1 and x[2][2][0][0] == "comp")
+        for st in anys:
+            comp = st[2][2][0]
+            if len(comp[3]) == 1 and comp[3][0][1] == src and comp[3][0][2] == K_TRUE:
+                bv = comp[3][0][0]
+                e_ = comp[2][0]
+                if e_[0] == "c" and e_[1] == ("a", bv, "point_inside") and len(e_[2]) == 1 and e_[2][0][0] == "c" and e_[2][0][1] == ("a", s_, "_cell_center"):
+                    i, j = e_[2][0][2]
+                    if st[1] == ("s", ("s", ("a", s_, "_cells"), j), i) and len(anys) == 1 and not marks:
+                        ok = True
+                        marks = [st]
+        # ... or as 'if any(region.point_inside(cell centre) for region in the three lists): cells[j][i] = True'
+        for st in atoms_of(c, lambda x: x[0] == "if" and len(x) == 4 and not x[3] and x[1][0] == "c" and x[1][1] == ("g", "any") and len(x[2]) == 1 and x[2][0] in marks):
+            comp = st[1][2][0]
+            if comp[0] == "comp" and len(comp[3]) == 1 and comp[3][0][1] == src and comp[3][0][2] == K_TRUE:
+                bv = comp[3][0][0]
+                e_ = comp[2][0]
+                if e_[0] == "c" and e_[1] == ("a", bv, "point_inside") and len(e_[2]) == 1 and e_[2][0][0] == "c" and e_[2][0][1] == ("a", s_, "_cell_center"):
+                    i, j = e_[2][0][2]
+                    if st[2][0][1] == ("s", ("s", ("a", s_, "_cells"), j), i):
+                        ok = True
     if not ok or len(marks) != 1:
         ctx.report(f.where, "cell-occupancy", "the occupancy matrix is not filled by 'region.point_inside(cell centre)' over blockages + specialised + fixed regions: "
                    "any exact comparison against the merged boundary lists misplaces regions whose sides differ by round-off (0.15 + 0.15 vs 0.4 - 0.1)", lineno=f.node.lineno)
